@@ -242,6 +242,32 @@ def ab2Stepper [LT K] [DecidableLT K] [LE K] [DecidableLE K] [HasFloor K]
   | none => none
   | some ((us, p), t) => some (⟨us, some p⟩, t)
 
+/-! ### the times at which the steps evaluate the rate, in the order of the code
+
+(compared by the check with the times a recording rate function sees in the real steppers) -/
+
+/-- euler.py: one evaluation at `t` -/
+def eulerTimes (t _dt : K) : List K := [t]
+
+/-- runge_kutta.py `single_step`: `k_i` at `t + c_i dt` -/
+def rk4Times (T : RK4Tab K) (t dt : K) : List K :=
+  [t + T.c1 * dt, t + T.c2 * dt, t + T.c3 * dt, t + T.c4 * dt]
+
+/-- runge_kutta.py error-estimating step: `k_i` at `t + a_i dt` -/
+def rkfTimes (T : RKFTab K) (t dt : K) : List K :=
+  [t + T.a1 * dt, t + T.a2 * dt, t + T.a3 * dt, t + T.a4 * dt, t + T.a5 * dt, t + T.a6 * dt]
+
+/-- adams_bashforth.py: `rhs(state_prev, t - dt)`, then `rhs(state, t)` -/
+def ab2Times (T : AB2Tab K) (t dt : K) : List K := [t + T.tPrev * dt, t + T.tCur * dt]
+
+/-- implicit.py / crank_nicolson.py: the distinct times of a step (`t` once, `t + dt` once per iteration) -/
+def implicitTimes (t dt : K) : List K := [t, t + dt]
+
+/-- all rate-evaluation times of a fixed-step call of `n` steps: the stage times of the steps started at
+`t_start + i dt` -/
+def callTimes (stage : K → K → List K) (dt tStart : K) (n : Nat) : List K :=
+  (List.range n).flatMap (fun i => stage (tStart + ((i : Nat) : K) * dt) dt)
+
 /-! ### adaptive stepping -/
 
 section adaptive
